@@ -56,7 +56,8 @@ CHECKS.update({
                 "identity existed.", quick=8000, floors={"same_name_recreated": 0.3}),
     "C03": hist("TestC03", GEN + "All three policies x all workload kinds with scale/app deletion/finished pods/dropped events, ending in "
                 "quiesce. Oracle: reference model of doc/float-ip.md - no premature release at every unbind/resync evaluation, no leak at "
-                "every quiescence. Non-trivial = >=1 keep and >=1 release decision evaluated and a scale/app delete in the history.",
+                "every quiescence (an allocation owned by the empty key counts as a leak). Up to two replica lookups of custom-resource apps fail "
+                "with an internal error. Non-trivial = >=1 keep and >=1 release decision evaluated and a scale/app delete in the history.",
                 quick=10000, floors={"keep_decision": 0.1, "release_decision": 0.1}),
     "C04": hist("TestC04", GEN + "Biased to same-name re-creation with late/duplicate unbind sources, resync, API release, reloads that keep "
                 "the IP, pod-IP sync. Oracle after every op and scheduler step: every live bound pod's still-configured IP is allocated to "
@@ -166,7 +167,7 @@ CHECKS["C14"] = {"pkg": "netsim", "test": "TestC14", "level": "exploration",
             "table == full sync from empty (own chains), exactly one rule+DNAT chain per port, idempotent, foreign chains byte-identical, "
             "no rejected batch; Clean(p) removes exactly p's chains/rules, Setup(p);Clean(p) restores the table; handed-out ports distinct "
             "per protocol, bind() fails while held and succeeds after CloseHostports; a setup with one port taken fails and leaves every "
-            "port it opened bindable. Non-trivial = stale galaxy chains and foreign rules present, >=2 pods, >=1 port.",
+            "port it opened bindable. In a third of the cases a pod with random ports only is set up a second time without a teardown in between: the ports handed out by the second setup must be > 0 and held. Non-trivial = stale galaxy chains and foreign rules present, >=2 pods, >=1 port.",
     "assumptions": E3_ASSUME + ["every C14 test process re-executes itself in a private network namespace (unshare -n) so that parallel shards and unrelated processes cannot take a host port between two steps; without namespace support it stays in the shared namespace (class private_netns shows which)", "EnsureBasicRule/full sync ran before per-pod Setup/Clean (as galaxy does at start-up)",
                                 "an explicit port lost to another process between selection and use makes the case inconclusive (counted in coverage.extra)"],
     "floors": {"stale_galaxy_chains": 0.3, "foreign_rules": 0.3}}
